@@ -2,6 +2,7 @@
 # try_mutant.sh <patch> <PROP> [<PROP>...] : apply patch to /repo, run quick checks, revert. Prints one line per prop.
 patch="$(realpath "$1")"; shift
 cd /verif
+export VERIF_EVIDENCE_DIR=/dev/shm/verif-mutant-evidence VERIF_REPLAY_DIR=/dev/shm/verif-mutant-replays
 if ! git -C /repo diff --quiet; then echo "REPO DIRTY"; exit 3; fi
 git -C /repo apply "$patch" || { echo "APPLY FAILED $patch"; exit 3; }
 trap 'git -C /repo checkout -- .' EXIT
